@@ -89,6 +89,78 @@ def bit_index_of(e: ast.AST) -> Optional[ast.AST]:
     return None
 
 
+def _lin_off(e: ast.AST, C: str) -> Optional[Dict[str, int]]:
+    """linear form where the cursor is 'cursor' and (cursor & 7 | cursor % 8) is the symbol 'off'"""
+    if bit_index_of(e) is not None and norm(bit_index_of(e)) == C:
+        return {"off": 1}
+    if isinstance(e, ast.BinOp) and isinstance(e.op, (ast.Add, ast.Sub)):
+        a, b = _lin_off(e.left, C), _lin_off(e.right, C)
+        if a is None or b is None:
+            return None
+        sgn = 1 if isinstance(e.op, ast.Add) else -1
+        out = dict(a)
+        for k, v in b.items():
+            out[k] = out.get(k, 0) + sgn * v
+        return out
+    return lin(e, {C: "cursor"})
+
+
+def _byte_terms(e: ast.AST, C: str):
+    """e = sum of (lin >> 3) terms + constant  ->  (list of inner linear forms, constant) ; None if not of that shape"""
+    terms, k = [], 0
+    work = [(e, 1)]
+    while work:
+        x, sg = work.pop()
+        if isinstance(x, ast.BinOp) and isinstance(x.op, (ast.Add, ast.Sub)):
+            work.append((x.left, sg))
+            work.append((x.right, sg if isinstance(x.op, ast.Add) else -sg))
+            continue
+        if isinstance(x, ast.Constant) and isinstance(x.value, int):
+            k += sg * x.value
+            continue
+        inner = byte_index_of(x)
+        if inner is None or sg != 1:
+            return None
+        l = _lin_off(inner, C)
+        if l is None:
+            return None
+        terms.append(l)
+    return terms, k
+
+
+def window_verdict(lower: ast.AST, upper: ast.AST, C: str, bitsp: Optional[str]):
+    """Slice store[lower:upper] read by a word primitive for `bits` bits at the bit cursor C.
+    -> True (the upper bound always reaches the byte after the word's last bit), a str (it can fall short: violation
+    text), None (not decided).  Arithmetic on (x >> 3) forms with off = cursor & 7 in [0, 7]."""
+    if bitsp is None:
+        return None
+    U = _byte_terms(upper, C)
+    L = _byte_terms(lower, C)
+    if U is None or L is None or len(L[0]) != 1 or L[1] != 0 or {k: v for k, v in L[0][0].items() if v} != {"cursor": 1}:
+        return None
+    terms, k = U
+    # needed: upper >= (cursor >> 3) + ((off + bits + 7) >> 3)
+    rest = [t for t in terms if {kk: v for kk, v in t.items() if v} != {"cursor": 1}]
+    base = len(terms) - len(rest)
+    if base == 1 and len(rest) == 1:
+        t = {kk: v for kk, v in rest[0].items() if v}
+        c = t.get("", 0) + 8 * k
+        if t.get(bitsp) == 1 and set(t) <= {bitsp, "off", ""}:
+            if t.get("off", 0) == 1:
+                return True if c >= 7 else "the slice ends at byte (off + %s + %d >> 3) past the first: %s short of ceil((off + %s) / 8) - the word's top bits are not read" % (bitsp, c, "up to one byte", bitsp)
+            if t.get("off", 0) == 0:
+                if c >= 14:
+                    return True
+                return "the slice spans (%s + %d >> 3) bytes from the cursor's byte and ignores the bit offset inside that byte: a field that does not start on a byte boundary can need one byte more (e.g. 8 bits at offset 4), its top bits are read as 0" % (bitsp, c)
+        return None
+    if base == 0 and len(rest) == 1:
+        t = {kk: v for kk, v in rest[0].items() if v}
+        c = t.get("", 0) + 8 * k
+        if t.get("cursor") == 1 and t.get(bitsp) == 1 and set(t) <= {"cursor", bitsp, ""}:
+            return True if c >= 7 else "the slice ends at (cursor + %s + %d >> 3): the byte holding the word's last bits is cut off when the word does not end on a byte boundary" % (bitsp, c)
+    return None
+
+
 class CursorClass:
     def __init__(self, eng, ci: ClassInfo):
         self.eng, self.ci = eng, ci
@@ -493,6 +565,18 @@ class Prims:
                         if isinstance(e, ast.Name) and len(defs.values(e.id)) == 1 and defs.values(e.id)[0][1] is not None:
                             return defs.values(e.id)[0][1]
                         return e
+                    # does the slice reach the last bit of the word?  the byte after the last needed one is
+                    #   ceil((cursor + bits) / 8) = ((cursor & 7) + bits + 7 >> 3) + (cursor >> 3)
+                    from ..dataflow import deep_resolve as _deep
+                    ps_ = [p.arg for p in m.params][1:]
+                    bitsp = ps_[0] if ps_ else None
+                    verdict = window_verdict(_deep(m.node, r.slice.lower), _deep(m.node, r.slice.upper), cc.C, bitsp)
+                    if verdict is True:
+                        self.note("undecided", "cursor", m, norm(r, 60), "slice covers the word's last bit; value extraction not decided")
+                        continue
+                    if isinstance(verdict, str):
+                        self.note("violation", "cursor", m, norm(r, 60), verdict)
+                        continue
                     lo, hi = lin(r.slice.lower, {}), lin(r.slice.upper, {})
                     if lo is not None and hi is not None:
                         d = dict(hi)
